@@ -62,7 +62,7 @@ def run_case(case):
             viol("duplicate-object-name-in-module", f"{case['request']}: JIT object names not distinct: {b0['objects']}")
         for hs, hist, reqmod in case["variants"]:
             req = dict(case["request"], **reqmod)
-            out, err = gen({"requests": [req], "history": hist, "k": 3 + (hash(str(hs)) % 3)}, hs)
+            out, err = gen({"requests": [req], "history": hist, "k": 25 if hist == "churn" else 3 + (hash(str(hs)) % 3)}, hs)
             res["evaluations"] += 1
             if out is None or "error" in out[0]:
                 count("variant_failed")
@@ -121,7 +121,7 @@ def cases_for(tier, s):
     if tier == "quick":
         pool = pool[:22]
     for i, r in enumerate(pool):
-        variants = [(1 + i % 3, "none", {}), ("random", "objs", {}), (0, "compiled", {})]
+        variants = [(1 + i % 3, "none", {}), ("random", "objs", {}), (0, "compiled", {}), (0, "churn", {})]
         if tier == "thorough":
             variants += [(2, "objs", {}), (3, "compiled", {}), ("random", "none", {})]
         opts = {"scalar_type": ["float64", "float32", "complex128"][i % 3]} if r["b"] in ("mass", "stiff_nl", "nearmiss", "expr_suite") else {}
